@@ -593,7 +593,8 @@ def hasAncestor (t : HTy) (chain : List HLevel) : Bool := chain.any (fun l => l.
       a SEQUENCE_CHUNK ancestor but no CHROMOSOME ancestor      -> NoSuchAncestorException
       `not chunk_parent.sequence`                               -> NullSequenceException
       `sequence_chunk.location_on_parent.parent_to_relative_location(location.reset_parent(chunk_parent.parent))`:
-         location_on_parent is None (the chunk's parent has no location, or the chunk has no parent)  -> AttributeError
+         location_on_parent is None (the chunk's parent has no location, or the chunk has no parent)  -> ValidationException
+                                                                     (since 43c4851; AttributeError before, F-C19t)
          it has no parent of its own while the lifted location has one                                 -> MismatchedParent
          its parent carries a sequence and `chunk_parent.parent` does not (or vice versa)              -> MismatchedParent
       no SEQUENCE_CHUNK ancestor                                -> `location.reset_parent(parent)`  -/
@@ -610,10 +611,10 @@ def liftoverParents (chain : List HLevel) : V Unit :=
             if !c.hasSeq then raise .NullSequence
             else
               match above with
-              | [] => .error (.internal "AttributeError")
+              | [] => raise .Validation
               | a :: _ =>
                   match a.loc with
-                  | .none => .error (.internal "AttributeError")
+                  | .none => raise .Validation
                   | .bare => raise .MismatchedParent
                   | .ptr pseq => if pseq != a.hasSeq then raise .MismatchedParent else pure ()
     else pure ()
